@@ -12,6 +12,12 @@ set-subfield set of every present composite, and the values. Nothing else surviv
 value written into a field that is not present, or into a subfield that is not set, is
 not part of the state.
 
+The bitmap field (id 1) is part of every message: `a 1 = some bitmapMark` in the initial
+state (`AbsState.init`) and no operation ever removes it, so that *every* observer —
+GetFields, Unmarshal, JSON members, and (for ids ≥ 2) the bits of Pack — reads exactly the
+domain of `a`. (The alternative, leaving id 1 out of the abstract state, would put an
+"∪ {1}" into the statement about each observer.)
+
 `specStep` gives each operation's effect in one line. The refinement theorem
 (Props/C14.lean) says that the message object of Model/Object.lean, seen through `abs`,
 follows `specStep` at every step of every history.
@@ -102,6 +108,8 @@ def set (a : AbsState) (i : Nat) (v : Value) : AbsState := fun j => if j = i the
 def erase (a : AbsState) (i : Nat) : AbsState := fun j => if j = i then none else a j
 /-- the ids that are present -/
 def Present (a : AbsState) (i : Nat) : Prop := (a i).isSome = true
+/-- a new message: nothing but the bitmap field -/
+def init : AbsState := fun j => if j = 1 then some bitmapMark else none
 
 end AbsState
 
@@ -126,7 +134,7 @@ def specJsonDecode (spec : MsgSpec) (a : AbsState) : List (Nat × Value) → Abs
   | (id, v) :: rest =>
     if id = 1 then
       match v with
-      | .bin _ => specJsonDecode spec (a.set 1 bitmapMark) rest
+      | .bin _ => specJsonDecode spec a rest   -- the bitmap object's bytes are not part of the state
       | _ => a
     else
       match specMarshal spec a id v with
@@ -148,7 +156,7 @@ def specStep (spec : MsgSpec) (a : AbsState) : Op → AbsState
   | .mti s => a.set 0 ((Field.prim spec.mti).setBytesValue (a.cur 0 (.prim spec.mti)) s)
   -- Field / BinaryField(id, b): a field of the spec becomes present with the value SetBytes gives
   | .setField id b =>
-    if id = 1 then a.set 1 bitmapMark
+    if id = 1 then a       -- writes the bitmap object's bytes, which are not part of the state
     else match spec.fieldOf id with
       | none => a
       | some f => a.set id (f.setBytesValue (a.cur id f) b)
@@ -161,10 +169,11 @@ def specStep (spec : MsgSpec) (a : AbsState) : Op → AbsState
     match spec.unpack b with
     | .ok (m, _) => absOfMsg spec m
     | _ => (spec.unpackResidue b).abs spec   -- not specified: the fields decoded before the failure
-  -- UnsetField(id): the field is gone, value and all
-  | .unsetField id => a.erase id
+  -- UnsetField(id): the field is gone, value and all — except the bitmap field, which stays
+  | .unsetField id => if id = 1 then a else a.erase id
   -- UnsetFields("id.path"): the named subfield of a present composite is gone, with everything below it
   | .unsetPath id path =>
+    if id = 1 then a else
     match a id with
     | none => a
     | some v =>
@@ -175,12 +184,11 @@ def specStep (spec : MsgSpec) (a : AbsState) : Op → AbsState
           match f.unsetValue v path with
           | .ok v' => a.set id v'
           | _ => a
-  -- Pack / MarshalJSON / Clone / Describe materialise the bitmap field and change nothing else
-  | .pack => a.set 1 bitmapMark
-  | .json => a.set 1 bitmapMark
-  | .clone => a.set 1 bitmapMark
-  | .describe => a.set 1 bitmapMark
-  -- GetFields only reads
+  -- Pack / MarshalJSON / Clone / Describe / GetFields only read
+  | .pack => a
+  | .json => a
+  | .clone => a
+  | .describe => a
   | .getFields => a
 
 def specRun (spec : MsgSpec) (a : AbsState) : List Op → AbsState
@@ -207,10 +215,10 @@ def Field.CleanSubs : List (Tag × Field) → List (Tag × FieldObj) → List Ta
 end
 
 /-- every field object that is not marked present is as new, the others are clean;
-only ids of the spec are marked; a cached bitmap is a marked bitmap -/
+only ids of the spec are marked; the bitmap field (id 1) is marked -/
 def MsgObj.Clean (spec : MsgSpec) (o : MsgObj) : Prop :=
   (∀ i, i ∈ o.present → i = 1 ∨ (spec.fieldOf i).isSome = true) ∧
-  (o.cachedBitmap = true → o.present.contains 1 = true) ∧
+  o.present.contains 1 = true ∧
   ∀ id f, spec.fieldOf id = some f →
     (o.present.contains id = false → o.get id f = f.fresh) ∧ f.Clean (o.get id f)
 
